@@ -40,6 +40,9 @@ func (s *Service) Attest(ctx context.Context, duty *attester.Duty) ([]*phase0.At
 	span.SetAttributes(attribute.Int64("slot", util.SlotToInt64(duty.Slot())))
 
 	validatorIndices := s.fetchValidatorIndices(ctx, duty)
+	// Housekeep the attested map however this run ends, so that a failing epoch
+	// does not leave old entries behind.
+	defer s.housekeepAttestedMap(ctx, duty)
 
 	// Fetch the attestation data.
 	startOfSlot := s.chainTime.StartOfSlot(duty.Slot())
@@ -108,8 +111,6 @@ func (s *Service) Attest(ctx context.Context, duty *attester.Duty) ([]*phase0.At
 		monitorAttestationsCompleted(started, duty.Slot(), len(validatorIndices)-len(attestations), "failed", startOfSlot)
 	}
 	monitorAttestationsCompleted(started, duty.Slot(), len(attestations), "succeeded", startOfSlot)
-
-	s.housekeepAttestedMap(ctx, duty)
 
 	return attestations, nil
 }
